@@ -35,7 +35,8 @@ func ControlFlow(thorough bool, emit func(string)) {
 			}
 		}
 	}
-	d1 = append(d1, "if x < 3 {}", "if 0 {} else {}", "while 0 {}", "if x < 3 { } else if 1 { }", "func g(a){ a + 1 }; g(x)", "func g(){ return 1; 2 }; g()", "func g(a){ if a { return 1 }; 2 }; g(x)", "func g(){ while 1 { return 5 } }; g()", "`{% x = x + 1 %}{x}`", "`{% if x {1} else {2} %}`", "`{% while x < 2 { x = x + 1 } %}`")
+	d1 = append(d1, "while x < 3 { x = x + 1; func g() { break } }", "while x < 3 { x = x + 1; func g() { if 1 { continue } }; g() }", "while x < 3 { x = x + 1; func g() { while 1 { break }; 1 }; g() }", "func g() { while x < 3 { x = x + 1; func h() { return 1 }; if h() { break } } }; g()",
+		"while x < 3 { x = x + 1; &cc = x; cc }", "if x < 3 {}", "if 0 {} else {}", "while 0 {}", "if x < 3 { } else if 1 { }", "func g(a){ a + 1 }; g(x)", "func g(){ return 1; 2 }; g()", "func g(a){ if a { return 1 }; 2 }; g(x)", "func g(){ while 1 { return 5 } }; g()", "`{% x = x + 1 %}{x}`", "`{% if x {1} else {2} %}`", "`{% while x < 2 { x = x + 1 } %}`")
 	wrap := func(s string) {
 		emit("x = 0; " + s)
 		emit("x = 0; " + s + "; x")
